@@ -446,6 +446,12 @@ def delayed_names_rule(ck, prog, rule):
                 continue            # a plain function: its arguments are tokenised, a fixed name is harmless
             n += 1
             nm = next((k.value for k in c.keywords if k.arg in ("name", "dask_key_name")), None)
+            if isinstance(nm, ast.Name):
+                # a local holding the label: look at what it was built from
+                defs = [s2.value for s2 in ast.walk(f.node) if isinstance(s2, ast.Assign) and len(s2.targets) == 1
+                        and isinstance(s2.targets[0], ast.Name) and s2.targets[0].id == nm.id]
+                if len(defs) == 1:
+                    nm = defs[0]
             obj = target.value.id
             if nm is None:
                 ck.same(rule, f.where, norm(c)[:100], "the task key of a delayed bound method derives from the object (no name= override)", True)
